@@ -196,3 +196,14 @@ Proof. intros HR H2 HR2. unfold CFDivisor___sub__. rewrite (set_eqb_rep n2 vs2 H
   cbn zeta. change (fold_left _ (so vs) (PyOk [])) with (fold_left (bin_body Z.sub dd dd2) (so vs) (PyOk [])). rewrite bin_loop. cbn [app].
   destruct (binop_ctor Z.sub dd D dd2 E HR HR2) as (dd' & H1 & H3). rewrite H1. exists dd'. split; [f_equal; f_equal; apply zsum_sub|exact H3]. Qed.
 End CTOR.
+
+(* the total a constructor call stores (the sum of the listed chips) is the degree of the divisor it represents; get_total_degree returns that field *)
+Lemma zsum_pairs_as_function n : forall L : list (nat * Z), NoDup (map fst L) -> forallb (fun kv => Nat.ltb (fst kv) n) L = true ->
+  zsum snd L = zsum (fun v => d_get v 0 L) (seq 0 n).
+Proof. induction L as [|[k x] L IH]; intros Hnd Hall.
+  - cbn [zsum]. rewrite (zsum_ext _ (fun _ => 0)) by (intros; reflexivity). now rewrite zsum_zero.
+  - cbn [map fst] in Hnd. inversion Hnd as [|? ? Hk HL]; subst. cbn [forallb fst] in Hall. apply andb_true_iff in Hall. destruct Hall as [Hkn Hall]. apply Nat.ltb_lt in Hkn.
+    cbn [zsum snd]. rewrite (IH HL Hall).
+    rewrite (zsum_ext (fun v => d_get v 0 ((k, x) :: L)) (fun v => (if Nat.eqb v k then x else 0) + d_get v 0 L)).
+    + rewrite zsum_add, zsum_indicator; [reflexivity|apply seq_NoDup|apply in_seq; lia].
+    + intros v _. unfold d_get. cbn [d_find]. rewrite (Nat.eqb_sym k v). destruct (Nat.eqb_spec v k) as [->|Q]; [rewrite (d_find_absent k L Hk); lia|lia]. Qed.
